@@ -145,9 +145,8 @@ def run_stage(prop, stage, tier, rng, driver, res, known, extra_lines=None):
         lines += list(stage["gen"](ctx))
     nshards = max(1, min(16, len(lines) // 2000 + 1)) if stage.get("parallel", True) else 1
     shards = [[] for _ in range(nshards)]
-    per = (len(lines) + nshards - 1) // nshards if lines else 1
     for i, l in enumerate(lines):
-        shards[i // per].append(l)
+        shards[i % nshards].append(l)
     paths = []
     for i, sh in enumerate(shards):
         p = os.path.join(workdir, "scn.%d" % i)
